@@ -1,2 +1,3 @@
 import Drv.Util
 import Drv.C17
+import Drv.Corr
